@@ -13,7 +13,7 @@ one() {
   if ! (cd $W && patch -p1 -s < $P >/dev/null 2>&1); then printf "%s\t%s\t%s\t%s\n" $id $prop PATCH-FAILED 0; rm -rf $W $W-out; return; fi
   /verif/bin/govc check -dir $W -out $W-out $prop > $W-out/log 2>&1
   n=$(grep -c '^VIOLATION' $W-out/log)
-  first=$(grep -m1 "obligation " $W-out/log | sed 's/^ *obligation \([^ ]*\) .*/\1/')
+  first=$(grep -A1 "^VIOLATION" $W-out/log | grep -m1 "^ *obligation " | sed 's/^ *obligation \([^ ]*\) .*/\1/')
   [ -z "$first" ] && first=MISSED
   grep -qE "^(ANNOTATION-ERROR|TRANSLATION-ERROR|LOAD-ERROR)" $W-out/log && [ "$first" = MISSED ] && first="BROKEN:$(grep -m1 -E '^(ANNOTATION-ERROR|TRANSLATION-ERROR|LOAD-ERROR)' $W-out/log | cut -c1-80)"
   printf "%s\t%s\t%s\t%s\n" $id $prop "$first" "$n"
